@@ -13,6 +13,7 @@ import Model.Nilsimsa
 import Spec.Tlsh
 import Spec.Nilsimsa
 import Proofs.Lemmas.Tlsh
+import Proofs.Lemmas.Nilsimsa
 namespace Proofs.C19
 open Model Model.Tlsh Proofs.Lemmas.Tlsh
 
@@ -179,5 +180,50 @@ theorem dist_forms_agree (c : Cfg) (hc : c.valid = true) (o1 o2 : TObj) (h1 : Ob
   refine ⟨headerDiff o1 o2 lv + bodyDiff o2.code o1.code, ?_, ?_, ?_, ?_⟩ <;>
     (unfold distance; simp only [e1, e2, e1', e2', bind, Except.bind, pure, Except.pure, h1.chk, h2.chk, ne_eq,
       not_true_eq_false, ↓reduceIte])
+
+/-! ## Nilsimsa -/
+
+/-- the table the live object uses for the default target 53 is what the generating rule gives -/
+theorem tran53_rule : Nilsimsa.maketran 53 = Model.Gen.Lsh.tran53 := by decide +kernel
+
+/-- … and a permutation of 0..255 -/
+theorem tran53_perm : List.Perm Model.Gen.Lsh.tran53 (List.range 256) := by decide +kernel
+
+/-- the model's table rule is nilsimsa 0.2.4's `filltran` for every multiplier -/
+theorem maketran_eq_filltran (t : Nat) : Nilsimsa.maketran t = Spec.Nilsimsa.filltran t := Lemmas.Nilsimsa.maketran_eq t
+
+/-- a Nilsimsa digest always has 32 bytes (each < 256), for every target, input and history of updates -/
+theorem nilsimsa_length (s : Nilsimsa.St) : (Nilsimsa.digest s).length = 32 ∧ ∀ x ∈ Nilsimsa.digest s, x < 256 :=
+  ⟨Lemmas.Nilsimsa.digest_length s, Lemmas.Nilsimsa.digest_lt s⟩
+
+theorem nilsimsa_call_length (t : Nat) (d : List Nat) : (Nilsimsa.nilsimsa t d).length = 32 :=
+  Lemmas.Nilsimsa.digest_length _
+
+/-- `Nilsimsa(t)(data)` is the nilsimsa 0.2.4 digest, for every target and every input -/
+theorem nilsimsa_refines (t : Nat) (d : List Nat) : Nilsimsa.nilsimsa t d = Spec.Nilsimsa.nilsimsa t d :=
+  Lemmas.Nilsimsa.nilsimsa_eq t d
+
+/-- `distance(h1,h2) = Bits(h1).hd(h2)` is the Hamming distance (number of differing bits) of two equally long byte
+    strings — in particular of two 32-byte digests -/
+theorem nilsimsa_distance_hamming (a b : List Nat) (hl : a.length = b.length) (ha : ∀ x ∈ a, x < 256)
+    (hb : ∀ x ∈ b, x < 256) : Nilsimsa.distance a b = .ok (Spec.Nilsimsa.hamming a b) :=
+  Lemmas.Nilsimsa.distance_eq_hamming a b hl ha hb
+
+/-- operands of different lengths are refused -/
+theorem nilsimsa_distance_length_mismatch (a b : List Nat) (hl : a.length ≠ b.length) :
+    ∃ e, Nilsimsa.distance a b = .error e := Lemmas.Nilsimsa.distance_length_mismatch a b hl
+
+/-- symmetric -/
+theorem nilsimsa_distance_symm (a b : List Nat) (hl : a.length = b.length) (ha : ∀ x ∈ a, x < 256)
+    (hb : ∀ x ∈ b, x < 256) : Nilsimsa.distance a b = Nilsimsa.distance b a := by
+  rw [nilsimsa_distance_hamming a b hl ha hb, nilsimsa_distance_hamming b a hl.symm hb ha, Lemmas.Nilsimsa.hamming_comm]
+
+/-- zero iff the digests are equal -/
+theorem nilsimsa_distance_zero_iff (a b : List Nat) (hl : a.length = b.length) (ha : ∀ x ∈ a, x < 256)
+    (hb : ∀ x ∈ b, x < 256) : Nilsimsa.distance a b = .ok 0 ↔ a = b := by
+  rw [nilsimsa_distance_hamming a b hl ha hb, ← Lemmas.Nilsimsa.hamming_eq_zero a b hl ha hb]
+  constructor
+  · intro h; exact Except.ok.inj h
+  · intro h; rw [h]
 
 end Proofs.C19
